@@ -191,6 +191,11 @@ func C08(c *Ctx) {
 				uniq = append(uniq, in)
 				cs = append(cs, &mon.Case{Input: in, MaxExpr: 3000000, MaxEvents: 20, NoTrace: true})
 				cs = append(cs, &mon.Case{Input: in, Memo: true, MaxExpr: 3000000, MaxEvents: 20, NoTrace: true})
+				if len(uniq)%3 == 0 && g.Rule("E1") != nil {
+					// the left-recursive rule itself as entrypoint (no wrapping start rule)
+					cs = append(cs, &mon.Case{Input: in, Entry: "E1", MaxExpr: 3000000, MaxEvents: 20, NoTrace: true})
+					cs = append(cs, &mon.Case{Input: in, Entry: "E1", Memo: true, MaxExpr: 3000000, MaxEvents: 20, NoTrace: true})
+				}
 			}
 			// the model (pure re-evaluation, no memo) is only asked for short inputs; long chains are
 			// decided differentially between the four real configurations
@@ -199,8 +204,15 @@ func C08(c *Ctx) {
 					return
 				}
 				m := ref.Run(g, uniq[i], ref.Opts{LR: true, StepCap: 300000, MaxEvents: 1})
+				var me *ref.Result
+				if g.Rule("E1") != nil {
+					me = ref.Run(g, uniq[i], ref.Opts{LR: true, StepCap: 300000, MaxEvents: 1, Entry: "E1"})
+				}
 				mmu.Lock()
 				models[fmt.Sprintf("%d/%s", gi, uniq[i])] = m
+				if me != nil {
+					models[fmt.Sprintf("%d/E1/%s", gi, uniq[i])] = me
+				}
 				mmu.Unlock()
 			})
 			return cs
@@ -208,6 +220,9 @@ func C08(c *Ctx) {
 		Compare: stdCompare(false, true),
 		OnRef: func(gi int, g *gast.Grammar, cs *mon.Case, r *mon.Result) {
 			key := fmt.Sprintf("%d/%s", gi, cs.Input)
+			if cs.Entry != "" {
+				key = fmt.Sprintf("%d/%s/%s", gi, cs.Entry, cs.Input)
+			}
 			m := models[key]
 			if m == nil {
 				c.CovAdd("long_inputs_differential_only", 1)
